@@ -787,6 +787,8 @@ class LibMixin:
         dtype = k.get('dtype', a[1] if len(a) > 1 else None)
         if is_intlike(shape) and isinstance(concretize(shape), int):
             # 1-D array of concrete length: a list of numbers (float unless an integer dtype is given)
+            if dtype is not None and not isinstance(dtype, BuiltinType):
+                raise Unsupported(f'numpy dtype {dtype!r} is not modelled')
             isint = isinstance(dtype, BuiltinType) and dtype.name in ('int', 'bool')
             return self.new_list([(int(val) if isint else float(val)) for _ in range(concretize(shape))])
         if not (isinstance(shape, tuple) and len(shape) == 2):
@@ -794,6 +796,9 @@ class LibMixin:
         kind = 'real'
         if isinstance(dtype, BuiltinType):
             kind = {'bool': 'bool', 'int': 'int', 'float': 'real'}.get(dtype.name, 'real')
+        elif dtype is not None:
+            # fixed-width / exotic dtypes (np.uint8, ...) are machine arithmetic: not modelled, never ignored
+            raise Unsupported(f'numpy dtype {dtype!r} is not modelled')
         v = {'bool': bool(val), 'int': int(val), 'real': float(val)}[kind]
         h, w = shape
         for d in (h, w):
